@@ -345,11 +345,12 @@ pub fn query_sets(rec: &mut Rec) {
 }
 
 pub fn succinct(rec: &mut Rec, kmax: usize) {
-    let alpha = [F::one(), -F::one(), rho::<F>(rec.seed, 1)];
+    // zero is a legal challenge value for the public helper (the sponge never produces it, callers may)
+    let alpha = [F::one(), -F::one(), rho::<F>(rec.seed, 1), F::zero()];
     let pts: Vec<F> = field_alphabet::<F>(rec.seed).into_iter().map(|(_, f)| f).collect();
     for k in 0..=kmax {
-        let total = 3usize.pow(k as u32);
-        let chunk = 243usize;
+        let total = alpha.len().pow(k as u32);
+        let chunk = 1024usize;
         let mut start = 0;
         while start < total {
             let end = (start + chunk).min(total);
@@ -365,8 +366,8 @@ pub fn succinct(rec: &mut Rec, kmax: usize) {
                 let mut c = code;
                 let mut ch = Vec::new();
                 for _ in 0..k {
-                    ch.push(alpha[c % 3]);
-                    c /= 3;
+                    ch.push(alpha[c % alpha.len()]);
+                    c /= alpha.len();
                 }
                 let scp = SuccinctCheckPolynomial::<F>(ch.clone());
                 let coeffs = scp.compute_coeffs();
@@ -378,7 +379,7 @@ pub fn succinct(rec: &mut Rec, kmax: usize) {
                 }
                 rec.class(if ok { "scp-ok" } else { "scp-bad" });
                 if !ok && bad.is_none() {
-                    bad = Some(format!("challenge vector code {} (base 3 over {{1,-1,r1}})", code));
+                    bad = Some(format!("challenge vector code {} (base 4 over {{1,-1,r1,0}}, first challenge = lowest digit)", code));
                 }
             }
             rec.obs(&format!("scp|{}|{}", k, bad.is_none()));
@@ -387,12 +388,12 @@ pub fn succinct(rec: &mut Rec, kmax: usize) {
             }
         }
     }
-    rec.sample("scp", format!("SCP: every challenge vector in {{1,-1,r1}}^k, k = 0..{}, at 7 points", kmax));
+    rec.sample("scp", format!("SCP: every challenge vector in {{1,-1,r1,0}}^k, k = 0..{}, at 7 points", kmax));
 }
 
 pub fn run(rec: &mut Rec) {
     let t = rec.thorough();
     lc_ops(rec, if t { 5 } else { 4 });
     query_sets(rec);
-    succinct(rec, if t { 10 } else { 8 });
+    succinct(rec, if t { 9 } else { 7 });
 }
